@@ -99,7 +99,7 @@ func procCPU(pid int) float64 {
 	return (ut + st) / 100
 }
 
-var blockedRe = regexp.MustCompile(`(?s)goroutine \d+ \[([^\]]+)\]:\n(.*?)\n\n`)
+var blockedRe = regexp.MustCompile(`(?s)goroutine \d+ (?:gp=\S+ m=\S+ (?:mp=\S+ )?)?\[([^\]]+)\]:\n(.*?)\n\n`)
 
 // dispatcherState finds the goroutine running the server's single dispatcher in a goroutine dump.
 func dispatcherState(dump string) (state, frame string) {
@@ -109,6 +109,17 @@ func dispatcherState(dump string) (state, frame string) {
 		}
 	}
 	return "?", "?"
+}
+
+// repoGoroutines returns the goroutines of a dump that have a gopcua frame, shortened to max bytes.
+func repoGoroutines(dump string, max int) string {
+	var b strings.Builder
+	for _, m := range blockedRe.FindAllStringSubmatch(dump+"\n\n", -1) {
+		if strings.Contains(m[2], "github.com/gopcua/opcua") {
+			b.WriteString("[" + m[1] + "]\n" + m[2] + "\n\n")
+		}
+	}
+	return tailStr(b.String(), max)
 }
 
 // check asks the canary; on failure decides between crash, hang and load.
@@ -161,6 +172,10 @@ func (e *c29Env) check() bool {
 		dump := e.child.Dump()
 		st, fr := dispatcherState(dump)
 		witness["dispatcher_goroutine"] = st + " in " + fr
+		witness["goroutines_in_gopcua"] = repoGoroutines(dump, 8000)
+		if st == "?" {
+			witness["dump_head"] = dump[:min(len(dump), 4000)]
+		}
 		witness["cpu_seconds_while_silent"] = cpu
 		if cpu < 1.0 {
 			c.Violation("c29:server-hang:"+fr, fmt.Sprintf("the server stopped answering other clients (dispatcher goroutine: %s in %s; %.2fs CPU used while silent)", st, fr, cpu), witness)
